@@ -127,6 +127,30 @@ func (e *Env) eval(x spec.Expr) TV {
 			n.vars[v.Name] = TV{name, srt, gt}
 			binders = append(binders, fmt.Sprintf("(%s %s)", name, srt))
 		}
+		// A trigger s[i] on a slice s is made absolute: the bound variable
+		// ranges over absolute row positions j = off + i, so that the pattern
+		// (select row j) matches every read of the row, whatever slice window
+		// the read went through.
+		for _, tr := range x.Triggers {
+			for _, t := range tr {
+				ix, ok := t.(*spec.Index)
+				if !ok {
+					continue
+				}
+				id, ok := ix.I.(*spec.Ident)
+				if !ok {
+					continue
+				}
+				bv, bound := n.vars[id.Name]
+				if !bound || bv.Sort != "Int" || !strings.HasPrefix(bv.T, "q!") {
+					continue
+				}
+				base := n.eval(ix.X)
+				if base.Sort == "Slice" && !strings.Contains(base.T, bv.T) {
+					n.vars[id.Name] = TV{fmt.Sprintf("(- %s (s.off %s))", bv.T, base.T), "Int", bv.Go}
+				}
+			}
+		}
 		body := n.eval(x.Body)
 		if body.Sort != "Bool" {
 			e.fail("quantifier body not boolean")
@@ -651,6 +675,10 @@ func (e *Env) index(x *spec.Index) TV {
 		switch t := types.Unalias(b.Go).Underlying().(type) {
 		case *types.Slice:
 			row := fmt.Sprintf("(select %s (s.base %s))", g.read(e.cur, g.u.ElemComp(t.Elem())), b.T)
+			if suf := fmt.Sprintf(" (s.off %s))", b.T); strings.HasPrefix(i.T, "(- q!") && strings.HasSuffix(i.T, suf) {
+				// absolute position (see Quant)
+				return TV{fmt.Sprintf("(select %s %s)", row, strings.TrimSuffix(strings.TrimPrefix(i.T, "(- "), suf)), g.u.SortOf(t.Elem()), t.Elem()}
+			}
 			return TV{fmt.Sprintf("(select %s (loc (s.off %s) %s))", row, b.T, i.T), g.u.SortOf(t.Elem()), t.Elem()}
 		case *types.Array:
 			return TV{fmt.Sprintf("(select %s %s)", b.T, i.T), g.u.SortOf(t.Elem()), t.Elem()}
@@ -719,7 +747,7 @@ func (e *Env) call(x *spec.Call) TV {
 	case "old":
 		n := *e
 		n.cur = e.old
-		return n.eval(x.Args[0])
+		return n.materialize(n.eval(x.Args[0]))
 	case "len", "cap":
 		a := e.eval(x.Args[0])
 		if a.Sort == "Slice" {
@@ -761,6 +789,14 @@ func (e *Env) call(x *spec.Call) TV {
 			t = fmt.Sprintf("(s.base %s)", a.T)
 		}
 		return TV{fmt.Sprintf("(> %s %s)", t, g.top(e.old)), "Bool", nil}
+	case "oldalloc":
+		// oldalloc(o): reference o was already allocated in the old state
+		a := e.eval(x.Args[0])
+		t := a.T
+		if a.Sort == "Slice" {
+			t = fmt.Sprintf("(s.base %s)", a.T)
+		}
+		return TV{fmt.Sprintf("(<= %s %s)", t, g.top(e.old)), "Bool", nil}
 	case "allocated":
 		a := e.eval(x.Args[0])
 		t := a.T
@@ -780,6 +816,11 @@ func (e *Env) call(x *spec.Call) TV {
 		return TV{fmt.Sprintf("(ite %s %s %s)", c.T, a.T, b.T), a.Sort, a.Go}
 	case "bytes":
 		// bytes(x): the byte string held by a []byte, a byte array or a string
+		if id, ok := x.Args[0].(*spec.Ident); ok {
+			if c := e.globalBytesConst(id.Name); c != "" {
+				return TV{c, "Bytes", nil}
+			}
+		}
 		a := e.eval(x.Args[0])
 		mk := func(rowT, off, n Term) TV {
 			return TV{fmt.Sprintf("(mk.bytes %s (win %s %s %s))", n, rowT, off, n), "Bytes", nil}
@@ -806,11 +847,11 @@ func (e *Env) call(x *spec.Call) TV {
 			}
 		}
 		e.fail("bytes() of %s", a.Sort)
-	case "sub":
-		// sub(s, lo, hi): the Go slice expression s[lo:hi]
+	case "subslice":
+		// subslice(s, lo, hi): the Go slice expression s[lo:hi]
 		a, lo, hi := e.eval(x.Args[0]), e.eval(x.Args[1]), e.eval(x.Args[2])
 		if a.Sort != "Slice" {
-			e.fail("sub() needs a slice")
+			e.fail("subslice() needs a slice")
 		}
 		return TV{fmt.Sprintf("(mk.slice (s.base %s) (+ (s.off %s) %s) (- %s %s) (- (s.cap %s) %s))", a.T, a.T, lo.T, hi.T, lo.T, a.T, lo.T), "Slice", a.Go}
 	case "deref":
@@ -824,6 +865,9 @@ func (e *Env) call(x *spec.Call) TV {
 			return TV{a.T, atRefSort, et}
 		}
 		return TV{g.load(e.cur, g.placeOfRef(a.T, et)), g.u.SortOf(et), et}
+	case "mkbytes":
+		n, a := e.eval(x.Args[0]), e.materialize(e.eval(x.Args[1]))
+		return TV{fmt.Sprintf("(mk.bytes %s %s)", n.T, a.T), "Bytes", nil}
 	case "blen":
 		a := e.eval(x.Args[0])
 		return TV{fmt.Sprintf("(b.len %s)", a.T), "Int", nil}
@@ -905,3 +949,38 @@ func (e *Env) call(x *spec.Call) TV {
 }
 
 func isConst(v ssa.Value) bool { _, ok := v.(*ssa.Const); return ok }
+
+// globalBytesConst: a package-level []byte variable that is never written
+// after initialisation denotes a constant byte string (assumption: nobody
+// writes its backing array either).
+func (e *Env) globalBytesConst(name string) string {
+	if _, bound := e.vars[name]; bound {
+		return ""
+	}
+	p := e.g.prog.Pkgs[e.pkg]
+	if p == nil || p.Types == nil {
+		return ""
+	}
+	v, ok := p.Types.Scope().Lookup(name).(*types.Var)
+	if !ok {
+		return ""
+	}
+	return e.g.globalBytes(v.Pkg().Path(), v.Name(), v.Type())
+}
+
+func (g *Gen) globalBytes(pkg, name string, t types.Type) string {
+	sl, ok := types.Unalias(t).Underlying().(*types.Slice)
+	if !ok {
+		return ""
+	}
+	if b, ok := types.Unalias(sl.Elem()).Underlying().(*types.Basic); !ok || b.Kind() != types.Uint8 {
+		return ""
+	}
+	key := g.u.GlobalComp(pkg, name, t)
+	if g.prog.mutableGlobals()[key] {
+		return ""
+	}
+	c := "gb." + sanitize(pkg+"."+name)
+	g.u.Extra(fmt.Sprintf("(declare-const %s Bytes)", c))
+	return c
+}
